@@ -27,10 +27,55 @@ pub struct Case {
     /// stake keys registered before the call, with their reward balance
     registered: Vec<(u8, u64)>,
     txs: Vec<TxR>,
+    /// the rest of the initial state: (goes to the treasury pot?, key, lovelace) instantaneous rewards, delegations of
+    /// registered keys, pointers, genesis delegations, pools — every map of the certificate state starts non-empty
+    #[serde(default)]
+    mir: Vec<(bool, u8, u64)>,
+    #[serde(default)]
+    rich: bool,
 }
 
 fn cred(k: u8) -> StakeCredential {
     StakeCredential::AddrKeyhash(key(k).hash.into())
+}
+
+/// The initial certificate state, built from the recipe each time it is needed: the reference copies are never made
+/// with `Clone` (the code under test clones the state and writes it back, so a cloned reference would share its mistakes).
+fn mk_initial(c: &Case) -> CertState {
+    use pallas_validate::utils::{CertPointer, PoolParam};
+    let mut st = CertState::default();
+    for (k, r) in &c.registered {
+        st.dstate.rewards.insert(cred(*k), *r);
+    }
+    for (treasury, k, v) in &c.mir {
+        if *treasury {
+            st.dstate.inst_rewards.1.insert(cred(*k), *v);
+        } else {
+            st.dstate.inst_rewards.0.insert(cred(*k), *v);
+        }
+    }
+    if c.rich {
+        for (i, (k, _)) in c.registered.iter().enumerate() {
+            st.dstate.delegations.insert(cred(*k), [0x50 + i as u8; 28].into());
+            st.dstate.ptrs.insert(CertPointer { slot: 1_000 + *k as u64, tx_ix: 0, cert_ix: *k as u32 }, cred(*k));
+        }
+        st.dstate.gen_delegs.insert(vec![0x61; 28].into(), (vec![0x62; 28].into(), [0x63u8; 32].into()));
+        st.dstate.fut_gen_delegs.insert((77, vec![0x64; 28].into()), (vec![0x65; 28].into(), [0x66u8; 32].into()));
+        let pool = |b: u8| PoolParam {
+            vrf_keyhash: [b; 32].into(),
+            pledge: 1_000 + b as u64,
+            cost: 340_000_000,
+            margin: pallas_primitives::RationalNumber { numerator: 1, denominator: 20 },
+            reward_account: vec![0xe1; 29].into(),
+            pool_owners: vec![[b; 28].into()],
+            relays: vec![],
+            pool_metadata: None,
+        };
+        st.pstate.pool_params.insert([0x71; 28].into(), pool(1));
+        st.pstate.fut_pool_params.insert([0x72; 28].into(), pool(2));
+        st.pstate.retiring.insert([0x73; 28].into(), 300);
+    }
+    st
 }
 
 /// canonical rendering of a certificate state (the maps are hash maps)
@@ -97,13 +142,12 @@ fn check(c: &Case, obs: &mut Obs) -> Result<(), Fail> {
     let um = run::build_utxos(&utxos).map_err(|e| Fail { sig: "harness:utxo".into(), msg: e })?;
     let decoded: Vec<pallas_primitives::alonzo::Tx> = forged.iter().map(|f| minicbor::decode(&f.tx).expect("forged tx decodes")).collect();
     let metxs: Vec<MultiEraTx> = decoded.iter().map(|t| MultiEraTx::from_alonzo_compatible(t, run::era_of(c.era))).collect();
-    let mut initial = CertState::default();
-    for (k, r) in &c.registered {
-        initial.dstate.rewards.insert(cred(*k), *r);
+    let before = snapshot(&mk_initial(c));
+    if c.rich || !c.mir.is_empty() {
+        obs.class("rich-initial-state");
     }
-    let before = snapshot(&initial);
     // ---- reference 1: fold of the single-transaction rule over a private copy ----
-    let mut folded = initial.clone();
+    let mut folded = mk_initial(c);
     let mut fold_ok = true;
     let mut failing_at = None;
     for (i, m) in metxs.iter().enumerate() {
@@ -148,7 +192,7 @@ fn check(c: &Case, obs: &mut Obs) -> Result<(), Fail> {
         obs.class("fold-and-model-disagree (observation)");
     }
     // ---- the call under test ----
-    let mut live = initial.clone();
+    let mut live = mk_initial(c);
     let r = validate_txs(&metxs, &env, &um, &mut live);
     let after = snapshot(&live);
     if fold_ok {
@@ -180,9 +224,11 @@ fn tx_r() -> impl Strategy<Value = TxR> {
 }
 
 pub fn run(s: &Session) {
-    s.set_rule("sequences of 1..8 TxForge Shelley/Allegra/Mary transactions with and without stake-key registration / \
+    s.set_rule("sequences of 0..8 TxForge Shelley/Allegra/Mary transactions with and without stake-key registration / \
         deregistration certificates (4 stake keys, so repeats and misses are frequent), some made invalid by breaking value \
-        preservation, over a generated initial certificate state (pre-registered keys, some with a reward balance). Oracle: if \
+        preservation, over a generated initial certificate state (pre-registered keys, some with a reward balance; in most cases also \
+        instantaneous rewards in both pots, delegations, pointers, genesis delegations and pools, so that every map starts non-empty; the \
+        reference copies are rebuilt from the recipe, never cloned). Oracle: if \
         folding the single-transaction rule over a private copy succeeds (cross-checked against an independent model of the \
         registered keys), validate_txs succeeds and the caller's state equals the folded one (all maps, canonical rendering); \
         otherwise validate_txs fails and the caller's state is unchanged. Non-trivial = a failing transaction placed after a \
@@ -194,12 +240,14 @@ pub fn run(s: &Session) {
             (
                 prop::sample::select(vec![EraK::Shelley, EraK::Allegra, EraK::Mary]),
                 prop::collection::vec((10u8..14, prop_oneof![3 => Just(0u64), 1 => 1u64..1000]), 0..3),
-                prop::collection::vec(tx_r(), 1..8),
+                prop::collection::vec(tx_r(), 0..8),
+                prop::collection::vec((any::<bool>(), 10u8..16, 1u64..5_000_000), 0..4),
+                prop::bool::weighted(0.6),
             )
-                .prop_map(|(era, mut registered, txs)| {
+                .prop_map(|(era, mut registered, txs, mir, rich)| {
                     registered.sort();
                     registered.dedup_by_key(|x| x.0);
-                    Case { era, registered, txs }
+                    Case { era, registered, txs, mir, rich }
                 })
         },
         check,
